@@ -70,14 +70,11 @@ func VP_C09_shared() {
 	other := []byte([]string{"1 +", "a.b(", "'x\r\n", "ok + 1"}[vpChoice("o", 4)])
 	vpFreezeGlobals()
 	vpFreeze("shared tree", tree)
-	seq := vpC09Ops(tree, other)
-	vpAssert("C09/shared/no-shared-write", vpWrites() == 0)
-	again := vpC09Ops(tree, other)
-	vpAssert("C09/shared/repeatable", vpC09Same(seq, again))
+	// natively the goroutines run FIRST (a sequential warm-up would hide lazily initialised shared state)
+	const G = 4
+	results := make([]vpC09Result, G)
 	if !vpSymbolic() {
-		const G = 4
 		var wg sync.WaitGroup
-		results := make([]vpC09Result, G)
 		for g := 0; g < G; g++ {
 			wg.Add(1)
 			go func(g int) {
@@ -88,16 +85,20 @@ func VP_C09_shared() {
 			}(g)
 		}
 		wg.Wait()
-		same := true
+	}
+	seq := vpC09Ops(tree, other)
+	vpAssert("C09/shared/no-shared-write", vpWrites() == 0)
+	again := vpC09Ops(tree, other)
+	vpAssert("C09/shared/repeatable", vpC09Same(seq, again))
+	same := true
+	if !vpSymbolic() {
 		for g := 0; g < G; g++ {
 			if !vpC09Same(seq, results[g]) {
 				same = false
 			}
 		}
-		vpAssert("C09/shared/concurrent-equals-sequential", same)
-	} else {
-		// in the engine the concurrent part is implied by the frame condition above
-		vpAssert("C09/shared/concurrent-equals-sequential", true)
 	}
+	// in the engine the concurrent part is implied by the frame condition above
+	vpAssert("C09/shared/concurrent-equals-sequential", same)
 	vpReach("C09/shared/done")
 }
